@@ -42,6 +42,7 @@ LEAN_MODULES = [
     "PyYetiVerif.Props.C01PreEig",
     "PyYetiVerif.Props.C01Cuts",
     "PyYetiVerif.Props.C01CplxUnc",
+    "PyYetiVerif.Props.C01CplxUncFixed",
     "PyYetiVerif.Audit.C01",
 ]
 AUDIT_FILE = "PyYetiVerif/Audit/C01.lean"
@@ -75,7 +76,12 @@ THEOREMS = [
         "cuts_as_documented crit_regimes_partition classify_elastic_spec classify_rb_spec classify_auto_rb_iff "
         # uncoupled equations with complex-dtype coefficients: rigid-body rows, finding F61 (Props/C01CplxUnc.lean)
         "complex_unc_rb_row_is_undamped isSol_unit_mass_scale complex_unc_rb_exact_partial "
-        "complex_unc_damped_rb_counterexample complex_recovery_real_part complex_dtype_real_system_response_is_real"
+        "complex_unc_damped_rb_counterexample complex_recovery_real_part complex_dtype_real_system_response_is_real "
+        # candidate repair of finding F61 (Props/C01CplxUncFixed.lean, about Model/SuCoefCplxUncFixed.lean: the PATCHED
+        # rigid-body rows of corpus/c01_f61_candidate_fix.diff; /repo is unpatched, the current model stays)
+        "isSol_unit_mass_scale_damped complex_unc_rb_exact_fixed rb_step_unit_mass runUnc_map_of_step "
+        "complex_unc_rb_fixed_is_real_path complex_unc_rb_fixed_velo_exact complex_unc_rb_fixed_undamped_unchanged "
+        "complex_unc_damped_rb_counterexample_fixed complex_unc_rb_rows_fixed_spec"
     ).split()
 ]
 TRUSTED = [
@@ -150,7 +156,10 @@ PARTIAL = (
     "(2) the rigid-damped velocity-only regime is exact for the velocity only (by design of the source: "
     "rigidVelo_velocity_exact states the displacement defect); (3) uncoupled equations with complex-dtype coefficients: "
     "rigid-body rows are proved exact only when undamped (complex_unc_rb_exact_partial; the damped row is open finding "
-    "F61 with a proved counterexample); the elastic rows run the full modal recurrence (conjugate pairs are deleted "
+    "F61 with a proved counterexample; a repair candidate exists, corpus/c01_f61_candidate_fix.diff, for whose rows the "
+    "full statement is proved without the hypothesis b = 0: complex_unc_rb_exact_fixed, about "
+    "Model/SuCoefCplxUncFixed.lean, tied to the patched text by corpus/c01_f61_candidate_check.py - it is NOT the "
+    "model of /repo until the patch is applied); the elastic rows run the full modal recurrence (conjugate pairs are deleted "
     "only for real systems since repair 4a72d85, finding F62: complex_recovery_real_part, "
     "complex_dtype_real_system_response_is_real; regression guard in the oracle); "
     "(4) cd_as_force (off-diagonal damping as force) belongs to C08 / C17, it is outside this property and not modelled "
@@ -188,7 +197,9 @@ MANIFEST = {
     "rb/el/rf partition [0,n) for explicit and auto-detected rb, nonrf[_rb] = rb and nonrf[_el] = el in order, _mk_slice "
     "converts exactly the contiguous ranges; static_ic gives k d0 = F0, v0 = 0, a0 = 0 on elastic rows, rf rows are the "
     "static solution. Uncoupled complex-dtype systems: the rigid-body rows are the undamped recurrence (exact iff the row "
-    "is undamped: open finding F61 with proved counterexample). The same definitions run at Float (and over Q where "
+    "is undamped: open finding F61 with proved counterexample; for the candidate repair of F61 the full statement is "
+    "proved of the patched rows, complex_unc_rb_exact_fixed, complex_unc_rb_fixed_is_real_path - these theorems are about "
+    "the patch, not about /repo). The same definitions run at Float (and over Q where "
     "the arithmetic is exact) and are compared with get_su_coef, SolveUnc.tsolve (option grid), the coupled path, "
     "pre_eig, SolveExp2, SolveExp1 and the complex uncoupled path on every run.",
     "level_note": "Trusted: Lean kernel; propext, Classical.choice, Quot.sound; the Python harness and the cut-off "
@@ -196,7 +207,11 @@ MANIFEST = {
     "SolveExp2, SolveExp1 and pre_eig theorems, measured on the implementation's own values on every run (not proved); "
     "LAPACK's solves are tied numerically to the model's proved elimination; for the coupled / SolveExp2 / pre_eig paths "
     "the chaining of the model's pieces is done by the harness; cut-off switch errors and cancellation below "
-    "w*h = 1e-2 are measured (60-digit reference at the boundaries), not proved; cd_as_force belongs to C08/C17.",
+    "w*h = 1e-2 are measured (60-digit reference at the boundaries), not proved; cd_as_force belongs to C08/C17. "
+    "The ..._fixed theorems (candidate repair of F61) are tied to the PATCHED source only by "
+    "corpus/c01_f61_candidate_check.py (evidence in corpus/c01_f61_candidate_evidence.json) and by "
+    "`C01_F61_FIXED_MODEL=1 PYYETI_REPO=<patched tree> ./check C01`; on /repo the check keeps the current model and "
+    "prints KNOWN-FINDING for F61.",
     "technique": "Lean 4 proof (HasDerivAt of closed forms through one polymorphic definition, field_simp/ring "
     "identities, induction over steps, Mathlib ODE uniqueness, Matrix algebra over C for the decoupling and the "
     "conjugate-pair reduction, variation of constants for E/P/Q, congruence argument for pre_eig, proved Gaussian "
@@ -1952,6 +1967,12 @@ def _corr_preeig(ctx, drv):
 # the implementation; the model-free oracle reports the damped rows under the family of F61.
 
 F61 = "tsolve-unc-complex-dtype-damped-rigid-body-mode-damping-ignored"
+# Candidate repair of F61 (corpus/c01_f61_candidate_fix.diff): /repo is unpatched, so the model of this stream is the
+# current one (driver request `cu`: undamped rigid-body rows).  With C01_F61_FIXED_MODEL=1 the stream asks `cufix`
+# instead (the same request answered with the PATCHED rigid-body rows, Model/SuCoefCplxUncFixed.lean, theorems in
+# Props/C01CplxUncFixed.lean): `C01_F61_FIXED_MODEL=1 PYYETI_REPO=<patched tree> ./check C01` is the model swap
+# the integrator makes permanent (default of this switch) once the patch is applied to /repo.
+_CU_OP = "cufix" if os.environ.get("C01_F61_FIXED_MODEL") == "1" else "cu"
 # found by this check, repaired in /repo (fix: commit 4a72d85): kept as a regression guard
 FIXED_F62 = "tsolve-unc-complex-dtype-conjugate-pairs-deleted-spurious-imaginary-part"
 
@@ -2057,7 +2078,7 @@ def _corr_cu(ctx, drv):
                                          _cmat(pc.ur_inv_d))
         else:
             pcs = "0"
-        t = ["cu", str(o), bits(h), str(n)]
+        t = [_CU_OP, str(o), bits(h), str(n)]
         t += ["none"] if m is None else ["vec", _cc(m)]
         t += [_cc(b), _cc(k)]
         t += ["n"] if s["rb"] is None else [str(len(s["rb"]))] + [str(i) for i in s["rb"]]
